@@ -61,7 +61,7 @@ SIGS_ORDER = ["10e", "20e", "21e", "22e", "10n", "20n", "11e", "12e", "11n", "12
 
 # ---- configuration --------------------------------------------------------------------------
 def class_cfg(sigs, *, outer=None, inner=None, init="ClassInit", ctxs="NoTerms", max_ops=1, max_depth=3, nest_anytime=False,
-              dev="DevNone", check=True, vary=True, build_d2=True, leafs=("x", "y", "z"), full_quantification=False):
+              dev="DevNone", check=True, vary=True, build_d2=True, leafs=("x", "y", "z"), full_quantification=False, mixed=False):
     """sigs: signatures present ('10e', '21e', ...).  Slots 'A'+sig (outer role) and 'B'+sig (inner role)."""
     sigs = sorted(sigs)
     a_slots = ["A" + s for s in sigs]
@@ -75,8 +75,9 @@ CONSTANTS
  EvalClasses = {st([s for s in slots if s.endswith("e")])}
  Dev <- {dev}
  InitTerms <- {init}
- Maps <- ClassMaps
- Pairs <- ClassPairs
+ Maps <- {"MixMaps" if mixed else "ClassMaps"}
+ Pairs <- {"MixPairs" if mixed else "ClassPairs"}
+ SubsMaps <- {"MixMaps" if mixed else "NoMaps"}
  Ctxs <- {ctxs}
  VaryArgs <- {"ClassVaryArgs" if vary else "NoTerms"}
  VaryAttrs <- {"ClassVaryAttrs" if vary else "NoLabels"}
@@ -137,6 +138,12 @@ class Assignment:
             raise Machinery(f"no class assigned to slot {t[H]}")
         if k == "unf":
             return self.concretise(refold(t)).doit()
+        if k == "pool":
+            from ampform.sympy import PoolSum
+
+            return PoolSum(self.concretise(t[A][0]), *[(sp.Symbol(s_), tuple(T.rational(v) for v in vs)) for s_, vs in t[T.IX]])
+        if k == "sum":
+            return sp.Add(*[c * self.concretise(e) for e, c in t[T.BG]])
         raise Machinery(f"cannot concretise a {k} term in the class universe")
 
     def project(self, e):
@@ -160,6 +167,17 @@ class Assignment:
         if isinstance(e, sp.core.function.AppliedUndef) and e.func.__name__ in UNINTERPRETED:
             sub = [self.project(a) for a in e.args]
             return None if any(s is None for s in sub) else T.node(e.func.__name__, sub)
+        if type(e).__name__ == "PoolSum":
+            body = self.project(e.args[0])
+            if body is None:
+                return None
+            ix = []
+            for entry in e.args[1:]:
+                s_, vs = entry
+                if not isinstance(s_, sp.Symbol) or not all(isinstance(v, sp.Rational) for v in vs):
+                    return None
+                ix.append((s_.name, tuple(T._val_label(v) for v in vs)))
+            return T.pool(body, ix)
         return None
 
     def canon(self, t):
@@ -343,7 +361,8 @@ class ClassReplayer:
             try:
                 with warnings.catch_warnings():
                     warnings.simplefilter("ignore")
-                    got = want if act.startswith("Vary") or act == "Nest" else self.apply(act, args, real, asg)
+                    # (PoolSum.cleanup is C18's business: the step is taken from the specification state)
+                    got = want if act.startswith("Vary") or act in ("Nest", "CleanupA") else self.apply(act, args, real, asg)
                     if act == "Nest":
                         got = self.nest(T.from_tla(args[0]), real, asg)
             except Exception as e:  # noqa: BLE001
@@ -362,7 +381,7 @@ class ClassReplayer:
             if want is None:
                 self.undefined += 1
                 return True, "left the constructible terms"
-            if act in ("Xreplace", "Subs") and self.aliased(act, args, cur, asg):
+            if act in ("Xreplace", "Subs", "SubsMap") and self.aliased(act, args, cur, asg):
                 # two slots hold the same class: terms the specification distinguishes are one real object
                 self.aliased_steps = getattr(self, "aliased_steps", 0) + 1
                 real, cur = want, nxt
@@ -376,12 +395,12 @@ class ClassReplayer:
 
     @staticmethod
     def opname(act):
-        return {"Xreplace": "xreplace", "Subs": "subs", "DoitA": "doit", "RebuildA": "rebuild", "PickleA": "pickle",
-                "Nest": "__new__"}.get(act, "__eq__")
+        return {"Xreplace": "xreplace", "Subs": "subs", "SubsMap": "subs", "DoitA": "doit", "RebuildA": "rebuild", "PickleA": "pickle",
+                "Nest": "__new__", "CleanupA": "cleanup"}.get(act, "__eq__")
 
     @staticmethod
     def show_args(act, args):
-        if act == "Xreplace":
+        if act in ("Xreplace", "SubsMap"):
             return {T.show(k): T.show(r) for k, r in T.map_from_tla(args[0])}
         if act == "Subs":
             return [T.show(T.from_tla(args[0])), T.show(T.from_tla(args[1]))]
@@ -394,11 +413,11 @@ class ClassReplayer:
         return ""
 
     def real_map(self, act, args, asg):
-        m = T.map_from_tla(args[0]) if act == "Xreplace" else ((T.from_tla(args[0]), T.from_tla(args[1])),)
+        m = T.map_from_tla(args[0]) if act in ("Xreplace", "SubsMap") else ((T.from_tla(args[0]), T.from_tla(args[1])),)
         return {asg.concretise(k): asg.concretise(r) for k, r in m}
 
     def aliased(self, act, args, cur, asg):
-        m = T.map_from_tla(args[0]) if act == "Xreplace" else ((T.from_tla(args[0]), T.from_tla(args[1])),)
+        m = T.map_from_tla(args[0]) if act in ("Xreplace", "SubsMap") else ((T.from_tla(args[0]), T.from_tla(args[1])),)
         keys = [k for k, _ in m if k[K] == "node"]
         if not keys:
             return False
@@ -412,14 +431,24 @@ class ClassReplayer:
                     return True
         return False
 
+    def bound_key_in_map(self, act, args, real, asg):
+        rm = self.real_map(act, args, asg)
+        bound = set()
+        for a in sp.preorder_traversal(real):
+            if type(a).__name__ == "PoolSum":
+                bound |= {entry[0] for entry in a.args[1:]}
+        return bool(bound & set(rm))
+
     def subst(self, act, obj, rm):
         if act == "Xreplace":
             return obj.xreplace(rm)
+        if act == "SubsMap":
+            return obj.subs(dict(rm))
         ((k, r),) = rm.items()
         return obj.subs(k, r)
 
     def apply(self, act, args, real, asg):
-        if act in ("Xreplace", "Subs"):
+        if act in ("Xreplace", "Subs", "SubsMap"):
             return self.subst(act, real, self.real_map(act, args, asg))
         if act == "DoitA":
             return real.doit()
@@ -445,6 +474,8 @@ class ClassReplayer:
         cname = type(real).__name__
         op = self.opname(act)
         folded = nxt[K] != "unf" and "unf" not in {s[K] for s in subterms(nxt)}
+        if act == "CleanupA":
+            return True
         if act.startswith("Vary"):
             # the neighbour differs in exactly one argument / one non-SymPy attribute
             if self.c14():
@@ -485,7 +516,7 @@ class ClassReplayer:
                 proj = asg.project(got)
                 if proj is not None and asg.canon(proj) != asg.canon(nxt) and self.c14():
                     raise Machinery(f"projection of {got!r} is {T.show(proj)}, specification state {T.show(nxt)}: harness projection error")
-                if act in ("Xreplace", "Subs") and self.c14():
+                if act in ("Xreplace", "Subs", "SubsMap") and self.c14():
                     self.diamond(act, args, real, got, asg, case)
                 return True
             proj = asg.project(got)
@@ -493,6 +524,14 @@ class ClassReplayer:
                 # the model part of the object is the specification state; only what a helper class derives from its
                 # arguments at construction (e.g. slice bounds normalised with the parent's shape) differs: ill-typed nesting
                 self.derived_part_differs = getattr(self, "derived_part_differs", 0) + 1
+                return False
+            if self.c14() and act in ("Xreplace", "Subs", "SubsMap") and self.bound_key_in_map(act, args, real, asg):
+                # a map that contains a summation index of a (nested) PoolSum: the index part must not matter,
+                # the rest of the map must still be applied
+                what = "whole-map-discarded" if got == real else "result-differs"
+                self.v(f"PoolSum.{op}:map-with-bound-index-and-free-symbol:{what}",
+                       f"{describe(real)}.{op}({case['history'][-1][1]}) = {describe(got)}, the specification requires {describe(want)} "
+                       "(a summation index in the map must not prevent the substitution of free symbols)", case)
                 return False
             if self.c14():
                 pat = mismatch_pattern(got, want)
@@ -530,12 +569,19 @@ class ClassReplayer:
         rm = self.real_map(act, args, asg)
         if not all(isinstance(k, (sp.Symbol, ArraySymbol)) for k in rm):
             return  # LeafKeyed(m): a compound key does not survive unfolding, the law is about symbol keys
+        # doit().xreplace(m restricted to the free symbols) on the unfold-first side: keys that only occur bound
+        # (summation indices) must not matter
+        try:
+            free = set(real.free_symbols) | {a for a in sp.preorder_traversal(real) if isinstance(a, ArraySymbol)}
+        except Exception:  # noqa: BLE001
+            free = set(rm)
+        rm_free = {k: v for k, v in rm.items() if k in free}
         try:
             with warnings.catch_warnings():
                 warnings.simplefilter("ignore")
                 d0 = real.doit()
                 d1 = got.doit()
-                d0m = self.subst(act, d0, rm)
+                d0m = self.subst("Xreplace" if act != "Subs" or len(rm_free) != 1 else act, d0, rm_free) if rm_free else d0
         except Exception:  # noqa: BLE001
             self.undefined += 1
             return
@@ -665,6 +711,10 @@ def project_generic(e):
         return T.leaf("arr:" + str(e.name))
     if isinstance(e, sp.Rational):
         return T.val(T._val_label(e))
+    if type(e).__name__ == "PoolSum" and all(isinstance(en[0], sp.Symbol) and all(isinstance(v, sp.Rational) for v in en[1]) for en in e.args[1:]) \
+            and len({en[0] for en in e.args[1:]}) == len(e.args) - 1:
+        # a binder: the trace specification must know which symbols are summation indices
+        return T.pool(project_generic(e.args[0]), [(en[0].name, tuple(T._val_label(v) for v in en[1])) for en in e.args[1:]])
     if isinstance(e, sp.Basic):
         at = ()
         if dataclasses.is_dataclass(e):
@@ -954,7 +1004,11 @@ def classify_class_reject(chk, clause, rec, info, prop="C14"):
     """Trace_Expr rejected a record of a class instance"""
     cls, op = info.get("cls"), info.get("opname")
     case = {"record": rec.get("id"), **{k: v for k, v in info.items() if k in ("cls", "obj", "what", "res", "nested")}}
-    if clause == "Subst":
+    if clause == "Subst" and info.get("mixed"):
+        what = "whole-map-discarded" if info.get("unchanged") else "result-differs"
+        chk.violation(f"PoolSum.{op}:map-with-bound-index-and-free-symbol:{what}",
+                      f"{info['obj']}.{info['what']} = {info['res']}: a summation index in the map must not matter, the free symbols must be substituted", case)
+    elif clause == "Subst":
         r = json.dumps(rec["r"])
         t = json.dumps(rec["t"])
         if r.count('"h": "Tuple"') > t.count('"h": "Tuple"') + sum(json.dumps(x[1]).count('"h": "Tuple"') for x in rec["m"]) or '"pytuple"' in r:
@@ -1114,3 +1168,91 @@ def numeric_clause(chk, embs, rng, n_events=7):
 
 
 FILLERS_NUM = {"angular_momentum": sp.Integer(2), "l": sp.Integer(2)}
+
+
+# ---- mixed maps: a summation index and a free symbol in one map (PoolSum as outer class and as nested argument) ----
+def simulate_mixed(sigs, *, num, depth, seed, leafs=("x", "y")):
+    from .expr_pool import simulate_parallel
+
+    cfg = class_cfg(sigs, init="MixInit", mixed=True, ctxs="ClassCtxs", max_ops=4, max_depth=5, nest_anytime=True, check=False, leafs=leafs)
+    return simulate_parallel("ExprOps_MC", cfg, num=num, depth=depth, seed=seed, jobs=2)
+
+
+def run_mixed_replays(rep, embs, behs, rng, *, budget_s, limit_s):
+    by_sig = sig_buckets(embs)
+    sigs = sorted(by_sig)
+    t_end = time.time() + budget_s
+    rr = {s_: 0 for s_ in sigs}
+    n = mixed_steps = 0
+    classes = set()
+    for beh in behs:
+        if time.time() > t_end:
+            break
+        asg = default_assignment(by_sig, rng, sigs, "symbol")
+        # round robin over the classes of the slots that occur in the initial term
+        cur = T.from_tla(beh[0]["state"]["cur"])
+        for slot in slots_in(cur):
+            cands = by_sig[slot[1:]]
+            emb = cands[rr[slot[1:]] % len(cands)]
+            rr[slot[1:]] += 1
+            asg.slots[slot] = (emb, pick_active(emb, rng))
+            classes.add(emb.name)
+        before = rep.by_action.get("Xreplace", 0) + rep.by_action.get("SubsMap", 0)
+        rep.replay(beh, asg, focus=["mixed-map", T.show(cur)], limit_s=limit_s)
+        mixed_steps += rep.by_action.get("Xreplace", 0) + rep.by_action.get("SubsMap", 0) - before
+        n += 1
+    return {"behaviours_replayed": n, "xreplace_and_subs_dict_steps": mixed_steps, "classes_around_or_inside_pool_sums": len(classes)}
+
+
+def mixed_trace_records(embs, rng, start_id):
+    """(term, operation, result) records with maps {summation index -> value, free symbol -> term} on PoolSum as outer
+    class and as nested argument of every class; judged by Trace_Expr (Subst drops the bound key, applies the rest)."""
+    from ampform.sympy import PoolSum
+
+    x, y, w, i = sp.symbols("x y w i")
+    f, hfun = sp.Function("f"), sp.Function("h")
+    recs, ctx = [], {}
+    rid = start_id
+
+    def add(rec, **info):
+        nonlocal rid
+        rec["id"] = rid
+        ctx[rid] = info
+        recs.append(rec)
+        rid += 1
+
+    objs = [(None, PoolSum(f(x, i), (i, (1, 2)))), (None, PoolSum(f(x, i) + x, (i, (0, 1, 2)))),
+            (None, PoolSum(f(i, PoolSum(f(x, i), (i, (1, 2)))), (i, (2, 3))))]
+    for c in embs:
+        try:
+            with warnings.catch_warnings():
+                warnings.simplefilter("ignore")
+                with time_limit(10):
+                    inner = PoolSum(f(x, i), (i, (1, 2)))
+                    args = [inner, y][: c.ar]
+                    objs.append((c, c.build(args, tuple(rng.choice("ab") for _ in range(c.na)), pick_active(c, rng))))
+                    if c.name != "PoolSum":
+                        body = c.build([x, i][: c.ar] if c.ar == 2 else [i], tuple("a" for _ in range(c.na)), pick_active(c, rng))
+                        if x in body.free_symbols or c.ar == 1:
+                            objs.append((c, PoolSum(body + f(x), (i, (1, 2)))))
+        except (Exception, OpTimeout):  # noqa: BLE001
+            continue
+    maps = [({i: sp.Integer(5), x: w}, "xreplace"), ({x: hfun(w), i: w}, "xreplace"), ({i: sp.Integer(5), x: w}, "subs"),
+            ({x: w, i: sp.Integer(3)}, "subs"), ({i: sp.Integer(5)}, "xreplace"), ({x: w}, "xreplace")]
+    for c, obj in objs:
+        tj = T.to_json(project_generic(obj))
+        for m, op in maps:
+            try:
+                with warnings.catch_warnings():
+                    warnings.simplefilter("ignore")
+                    with time_limit(10):
+                        res = obj.xreplace(m) if op == "xreplace" else obj.subs(m)
+            except OpTimeout:
+                continue
+            except Exception as e:  # noqa: BLE001
+                add({"op": "error", "t": tj}, cls=c.name if c else "PoolSum", obj=describe(obj), what=f"{op}({m}) raised {e!r}", exc=type(e).__name__, opname=op)
+                continue
+            add({"op": "subst", "t": tj, "m": [[T.to_json(project_generic(k)), T.to_json(project_generic(r))] for k, r in m.items()],
+                 "r": T.to_json(project_generic(res))}, cls=c.name if c else "PoolSum", obj=describe(obj), what=f"{op}({m})", res=describe(res),
+                opname=op, mixed=True, unchanged=bool(res == obj))
+    return recs, ctx
